@@ -9,6 +9,8 @@ enough is expanded at its call sites in the in-memory syntax tree:
 * procedure           straight / structured body, at most one `return`, as last statement
                                                             -> `x = h(a)` / `h(a)` / `return h(a)` / `await h(a)` statements
 * single-yield generator used as `for t in h(a): BODY`     -> h's body with `yield v` replaced by `t = v; BODY`
+* `@contextmanager` helper used as `with h(a) [as t]: BODY` -> h's body with the `yield` replaced by `[t = v;] BODY`
+* procedure with guard clauses (`if C: return`)             -> first rewritten into the nested conditional it abbreviates
 
 Parameters are substituted by the argument expressions when those are plain (names, attribute chains, constants) and bound to
 temporaries otherwise; the helper's own locals are renamed; `self` is the receiver expression. A helper all of whose calls were
@@ -61,7 +63,8 @@ class Helper:
 
     def _classify(self) -> Optional[str]:
         fn = self.fn
-        if fn.decorator_list or fn.args.kwarg is not None or fn.args.posonlyargs:
+        is_cm = len(fn.decorator_list) == 1 and ast.unparse(fn.decorator_list[0]) in ("contextmanager", "contextlib.contextmanager")
+        if (fn.decorator_list and not is_cm) or fn.args.kwarg is not None or fn.args.posonlyargs:
             return None
         own = list(_own_nodes(fn))
         if any(isinstance(n, ast.Call) and isinstance(n.func, ast.Name) and n.func.id == fn.name for n in own):
@@ -73,15 +76,67 @@ class Helper:
             if len(yields) != 1 or not isinstance(yields[0], ast.Yield) or any(r.value is not None for r in rets) or isinstance(fn, ast.AsyncFunctionDef):
                 return None
             ok = any(isinstance(n, ast.Expr) and n.value is yields[0] for n in own)
+            if is_cm:
+                # `with h(..) [as v]: BODY` is h's body with BODY in the place of the yield
+                return "ctx" if ok and not rets else None
             return "gen" if ok and yields[0].value is not None else None
+        if is_cm:
+            return None
         if len(body) == 1 and isinstance(body[0], ast.Return) and body[0].value is not None and not isinstance(fn, ast.AsyncFunctionDef):
             return "expr"
         if len(rets) == 0:
             return "proc"
         if len(rets) == 1 and body and rets[0] is body[-1]:
             return "proc"
+        if all(r.value is None or (isinstance(r.value, ast.Constant) and r.value.value is None) for r in rets):
+            # guard clauses (`if C: return`) in a procedure: read as the nested conditional they abbreviate
+            flat = _unguard(copy.deepcopy(body))
+            if flat is not None:
+                self.flat_body = flat
+                return "proc"
         # several returns: expandable only where the call itself is returned (`return h(..)`)
         return "tail"
+
+    def body(self) -> List[ast.stmt]:
+        return getattr(self, "flat_body", None) or _body_wo_doc(self.fn)
+
+
+def _has_return(stmts) -> bool:
+    return any(isinstance(n, ast.Return) for st in stmts for n in ast.walk(st) if not isinstance(n, FuncDef + (ast.Lambda,)))
+
+
+def _unguard(stmts: List[ast.stmt]) -> Optional[List[ast.stmt]]:
+    """Statements of a procedure whose only returns are bare and close an `if` arm -> the same statements without returns
+    (`if C: A; return` + REST  ==  `if C: A` / `else: REST`). None when a return sits anywhere else (loop, try, with)."""
+    out: List[ast.stmt] = []
+    for i, st in enumerate(stmts):
+        if isinstance(st, ast.Return):
+            return out or [ast.copy_location(ast.Pass(), st)]
+        if isinstance(st, ast.If) and _has_return([st]):
+            body_ret = bool(st.body) and isinstance(st.body[-1], ast.Return)
+            else_ret = bool(st.orelse) and isinstance(st.orelse[-1], ast.Return)
+            a = st.body[:-1] if body_ret else st.body
+            b = st.orelse[:-1] if else_ret else st.orelse
+            a2, b2 = _unguard(a), _unguard(b)
+            rest = _unguard(stmts[i + 1:])
+            if a2 is None or b2 is None or rest is None:
+                return None
+            if (_has_return(a) and not body_ret) or (_has_return(b) and not else_ret):
+                return None  # a nested return that does not close the arm: the rest would have to be skipped from inside
+            new_body = a2 + ([] if body_ret else rest)
+            new_else = b2 + ([] if else_ret else rest)
+            if body_ret and else_ret:
+                pass  # REST is dead
+            elif not body_ret and not else_ret:
+                return None  # unreachable given _has_return, kept for safety
+            if not new_body:
+                new_body = [ast.copy_location(ast.Pass(), st)]
+            out.append(ast.copy_location(ast.If(test=st.test, body=new_body, orelse=new_else), st))
+            return out
+        if _has_return([st]):
+            return None
+        out.append(st)
+    return out
 
 
 class _Subst(ast.NodeTransformer):
@@ -179,7 +234,7 @@ def _expand_proc(h: Helper, call: ast.Call, recv, st: ast.stmt) -> Optional[List
     if b is None:
         return None
     mapping, pre, rename = b
-    body = _body_wo_doc(h.fn)
+    body = h.body()
     last_ret = body[-1] if body and isinstance(body[-1], ast.Return) else None
     stmts = [_Subst(mapping, rename).visit(copy.deepcopy(x)) for x in (body[:-1] if last_ret is not None else body)]
     stmts = [x for x in stmts if x is not None]
@@ -283,6 +338,41 @@ def _expand_gen(h: Helper, call: ast.Call, recv, loop: ast.For) -> Optional[List
     return out
 
 
+def _expand_ctx(h: Helper, call: ast.Call, recv, w: ast.With) -> Optional[List[ast.stmt]]:
+    b = _bind(h, call, recv)
+    if b is None:
+        return None
+    mapping, pre, rename = b
+    body = [_Subst(mapping, rename).visit(copy.deepcopy(x)) for x in _body_wo_doc(h.fn)]
+    target = w.items[0].optional_vars
+    state = {"done": False}
+
+    class _Y(ast.NodeTransformer):
+        def visit_Expr(self, node: ast.Expr):
+            if isinstance(node.value, ast.Yield):
+                state["done"] = True
+                head: List[ast.stmt] = []
+                if target is not None:
+                    head = [ast.Assign(targets=[copy.deepcopy(target)], value=node.value.value or ast.Constant(value=None))]
+                return head + [copy.deepcopy(x) for x in w.body]
+            return node
+
+        def visit_FunctionDef(self, node):
+            return node
+
+        visit_AsyncFunctionDef = visit_FunctionDef
+
+    out: List[ast.stmt] = []
+    for x in body:
+        r_ = _Y().visit(x)
+        out += r_ if isinstance(r_, list) else [r_]
+    if not state["done"]:
+        return None
+    out = pre + out
+    _place(out, w)
+    return out
+
+
 def inline_new_helpers(trees: Dict[str, ast.Module], known: Set[str]) -> List[str]:
     expanded: List[str] = []
     for _round in range(4):
@@ -338,6 +428,10 @@ def inline_new_helpers(trees: Dict[str, ast.Module], known: Set[str]) -> List[st
                     h, recv = target_of(st.iter)
                     if h is not None and h.fn is not within and h.kind == "gen":
                         rep = _expand_gen(h, st.iter, recv, st)
+                elif isinstance(st, ast.With) and len(st.items) == 1 and isinstance(st.items[0].context_expr, ast.Call):
+                    h, recv = target_of(st.items[0].context_expr)
+                    if h is not None and h.fn is not within and h.kind == "ctx":
+                        rep = _expand_ctx(h, st.items[0].context_expr, recv, st)
                 if rep is not None:
                     changed = True
                     if h.name not in expanded:
